@@ -188,7 +188,10 @@ def execute(trace):
             if not g.triples:
                 continue
             res.hit('probe.probe_bad_top')
-            check(f'{i}:probe_bad_top', top='not-a-variable-' + str(op.get('a', 0) % 3))
+            bad = ['not-a-variable', '', 0, 0.0, 'not-a-variable-2', False][op.get('a', 0) % 6]
+            if bad in set(lc._vars(g)):
+                continue
+            check(f'{i}:probe_bad_top', top=bad)
             continue
         if name == 'add_push_top':
             res.hit('probe.push_on_top')
